@@ -229,7 +229,11 @@ def obligations(tier, seed):
            B.Behavior._step, B.Behavior._invokeInner, I.Invocable._invokeSubBehavior, I.runTryInterrupt]
     horizon = 3 if tier == "quick" else 4
     obs = []
-    for name, P in corpus().items():
+    import os
+
+    programs = dict(corpus())
+    programs.update(generated(seed, int(os.environ.get("C12_GENERATED", "6" if tier == "quick" else "60"))))
+    for name, P in programs.items():
         secs = any("seconds" in str(x) for x in (P.get("terminate_after"), P.get("compose"), P.get("subs"), P.get("behaviors")))
         dts = [1, 0.5, 2] if secs else [1]
         obs.append(Obligation(name, harness_for(name, P, horizon, dts), D.program_text(P).replace("\n", " ; ")[:400],
@@ -238,3 +242,102 @@ def obligations(tier, seed):
                               ["DummySimulation with logging hooks", "conditions / durations read through builtins hooks"],
                               opts=dict(total_timeout=400.0, per_path_timeout=40.0), setup=warm(name, P)))
     return obs
+
+
+# ------------------------------------------------------------------ generated programs of the core dynamic fragment
+def gen_program(rnd, tag):
+    conds = ["c0", "c1"]
+    values = {"N": ("int", 0, 3), "M": ("int", 0, 3)}
+
+    def dur():
+        return (rnd.choice(["N", "M"]), rnd.choice(["steps", "steps", "seconds"]))
+
+    def agent_behavior(name):
+        k = rnd.random()
+        log, act = ("log", f"beh:{name}"), ("take", f"act:{name}")
+        if k < 0.35:
+            return [("loop", [log, act])], {}
+        if k < 0.50:
+            return [("loop", [log, ("if", rnd.choice(conds), [(rnd.choice(["terminate", "terminate_sim"]),)]), act])], {}
+        if k < 0.70:
+            v, u = dur()
+            mod = ("for", v, u) if rnd.random() < 0.5 else ("until", rnd.choice(conds))
+            inner = {f"Inner_{name}": [("loop", [("log", f"inner:{name}"), ("take", f"act:inner:{name}")])]}
+            return [("do", f"Inner_{name}", mod), ("log", f"resumed:{name}"), ("loop", [act])], inner
+        if k < 0.85:
+            v, u = dur()
+            return [("log", f"start:{name}"), ("waitfor", v, u), ("log", f"resumed:{name}"), ("loop", [act])], {}
+        return [("log", f"start:{name}"), ("waituntil", rnd.choice(conds)), ("log", f"resumed:{name}"), ("loop", [act])], {}
+
+    nag = rnd.choice([1, 1, 2])
+    agents, behaviors = [], {}
+    for i in range(nag):
+        body, extra = agent_behavior(f"a{i}")
+        behaviors[f"B{i}"] = body
+        behaviors.update(extra)
+        agents.append((f"a{i}", f"B{i}"))
+    monitor = None
+    k = rnd.random()
+    if k < 0.3:
+        monitor = [("loop", [("log", "monitor"), ("wait",)])]
+    elif k < 0.45:
+        monitor = [("loop", [("log", "monitor"), ("if", rnd.choice(conds), [("terminate",)]), ("wait",)])]
+    P = dict(agents=agents, behaviors=behaviors, monitor=monitor, record=rnd.random() < 0.5, values=values, conds=conds)
+    k = rnd.random()
+    if k < 0.2:
+        P["terminate_when"] = rnd.choice(conds)
+    elif k < 0.35:
+        P["terminate_sim_when"] = rnd.choice(conds)
+    elif k < 0.55:
+        P["terminate_after"] = (rnd.randint(1, 3), rnd.choice(["steps", "seconds"]))
+    if rnd.random() < 0.25:
+        P["require_always"] = rnd.choice(conds)
+    # sub-scenarios and compose block
+    subs = {}
+    for sname in ("SubA", "SubB")[: rnd.choice([0, 1, 1, 2])]:
+        sub = dict(compose=[("loop", [("log", sname.lower()), ("wait",)])] if rnd.random() < 0.7
+                   else [("log", sname.lower() + ":0"), ("wait",), ("log", sname.lower() + ":1")])
+        k = rnd.random()
+        if k < 0.3:
+            sub["terminate_after"] = dur()
+        elif k < 0.5:
+            sub["terminate_when"] = rnd.choice(conds)
+        elif k < 0.6:
+            sub["terminate_sim_when"] = rnd.choice(conds)
+        if rnd.random() < 0.25:
+            sub["require_always"] = rnd.choice(conds)
+        if rnd.random() < 0.3:
+            sub["record"] = True
+        subs[sname] = sub
+    compose = None
+    if subs or rnd.random() < 0.4:
+        compose = [("log", "compose:start")]
+        for _ in range(rnd.randint(1, 3)):
+            k = rnd.random()
+            if subs and k < 0.55:
+                v, u = dur()
+                mod = rnd.choice([None, ("for", v, u), ("until", rnd.choice(conds))])
+                compose.append(("do", rnd.choice(sorted(subs)), mod))
+                compose.append(("log", "compose:after-sub"))
+            elif k < 0.75:
+                compose.append(("wait",))
+                compose.append(("log", "compose:tick"))
+            elif k < 0.85:
+                v, u = dur()
+                compose.append(("waitfor", v, u))
+                compose.append(("log", "compose:waited"))
+            else:
+                compose.append(("if", rnd.choice(conds), [("terminate",)]))
+        if rnd.random() < 0.6:
+            compose.append(("loop", [("log", "compose"), ("wait",)]))
+    if subs:
+        P["subs"] = subs
+    P["compose"] = compose
+    return P
+
+
+def generated(seed, n):
+    import random
+
+    rnd = random.Random(1200 + seed)
+    return {f"generated[{seed}.{i}]": gen_program(rnd, f"g{i}") for i in range(n)}
